@@ -105,6 +105,9 @@ func (i *IPFIX) run() {
 		logger.Fatal(err)
 	}
 
+	// the workers read this flag: it is set before they are started
+	ipfixMirrorEnabled = opts.IPFIXMirrorAddr != ""
+
 	atomic.AddInt32(&i.stats.Workers, int32(i.workers))
 	for n := 0; n < i.workers; n++ {
 		go func() {
